@@ -325,6 +325,16 @@ def run(ctx: Ctx, tier: str) -> Result:
         ewf0 = p.func(AC + ".eval_watch")
         res.fail(Finding("C10.CONTAIN", ewf0.qname, "<escape %s>" % tok_, ewf0.loc(), "%s can leave eval_watch: a value whose collection fails (a __str__ raising a BaseException, an internal error) "
                          "takes the whole snapshot / log line with it instead of yielding an error result for this expression" % tok_, path=g.fmt_chain(ch_)))
+    # ... and the same holds where a metric's value / label expressions are worked out: one failing expression, whatever it
+    # raises, costs that expression's value only
+    pmf = p.functions.get("deep.processor.context.metric_action.MetricActionContext._process_metric")
+    if pmf is not None:
+        escm = g.escape_tokens(pmf)
+        if not escm:
+            res.ok("C10.CONTAIN", {"nothing escapes the evaluation of a metric's expressions": True})
+        for tok_, ch_ in sorted(escm.items())[:2]:
+            res.fail(Finding("C10.CONTAIN", pmf.qname, "<escape %s>" % tok_, pmf.loc(), "%s can leave _process_metric: a failing metric expression takes the other metrics of the hit "
+                             "with it instead of falling back for this metric only" % tok_, path=g.fmt_chain(ch_)))
     for _, other in good_sites[:-1]:
         if g.catching_try(other, ev, "BaseException") is None:
             res.fail(Finding("C10.CONTAIN", ev.qname, other, ev.loc(other), "the eval call is not enclosed by a handler for BaseException: a failing expression is raised instead of yielding an error value"))
@@ -360,6 +370,9 @@ def run(ctx: Ctx, tier: str) -> Result:
             res.fail(Finding("C10.DISCRIM", f.qname, c, f.loc(c),
                              "the value returned by evaluate_expression (which is the exception itself when evaluation failed) is used "
                              "as a good result without an isinstance(..., BaseException) test"))
+    from .common import borrow
+    borrow(ctx, res, tier, "c08", ("C08.SCHEMA",), "C10.WIRE", "the error result of a failed expression reaches the service as an error result (both members of the result are handed to the message, "
+           "whatever their text)")
     return res
 
 
